@@ -1,50 +1,28 @@
 (* Correspondence judge for C07.  Two kinds of cases:
-     CTable : a group key, a field list and the action tables observed on the four real parsers
-     CRun   : a group key, a field list, one input, the observed external loaders (as finite tables) and what
-              each of the four real parsers answered (parse result or rejection, dumped content and dump text)
-   v_model : the compilers of Model/C07Decl.v give exactly the observed tables / Model/C07Parse.v run on the
-             model tables gives exactly the observed answers, for all four styles;
-   v_class : Model.C07Parse.finding_class — the same function the theorem is guarded with;
-   v_spec  : the property itself, on the observations only: the four styles give the same leaf rows and
-             required keys (and the three grouped styles the same whole table) / the same accept-reject
-             decision, the same nested values and the same dump text. *)
-From JV Require Import Lib.Base Model.C07Decl Model.C07Parse.
-
-Inductive obs_out := OOk (c : ns) | OReject | OExit | OOther.
-
-Record style_run := { sr_out : obs_out; sr_dump : option (ns * str) }.
-
-(* order: dotted, dataclass, class group, inner parser *)
-Record four (A : Type) := { q_dotted : A; q_dcls : A; q_cls : A; q_inner : A }.
-Arguments q_dotted {A}. Arguments q_dcls {A}. Arguments q_cls {A}. Arguments q_inner {A}.
+     CTable : a group key, the declared field list fs, the normal form nfs the harness declared the two
+              add_argument styles from, and the action tables observed on the four real parsers
+     CRun   : the same declaration, one input, the observed external loaders (as finite tables) and what each of the
+              four real parsers answered (parse result or rejection, dumped content and dump text)
+   v_model : nfs is Model.C07Decl.norm fs, and the compilers of Model/C07Decl.v give exactly the observed tables /
+             Model/C07Parse.v run on the model tables gives exactly the observed answers, for all four styles;
+   v_class : Model.C07Parse.finding_class — the same function the theorem C07_four_styles_agree is guarded with;
+   v_spec  : Spec/C07Spec.v, on the observations only. *)
+From JV Require Import Lib.Base Model.C07Decl Model.C07Parse Spec.C07Spec.
 
 Inductive case :=
-| CTable (gk : str) (fs : list field) (obs : four table)
-| CRun (gk : str) (fs : list field) (inp : input) (pvt jlt : list (str * val)) (obs : four style_run).
+| CTable (gk : str) (fs nfs : list field) (obs : four table)
+| CRun (gk : str) (fs nfs : list field) (inp : input) (pvt jlt : list (str * val)) (obs : four style_run).
 
 Definition tab_fun (t : list (str * val)) (s : str) : val :=
   match lookup s t with Some v => v | None => VStr s end.
 
-Definition tv_eqb (a b : tv) : bool :=
-  match a, b with
-  | TLeaf x, TLeaf y => val_eqb x y
-  | TNs x, TNs y => list_eqb (fun p q => str_eqb (fst p) (fst q) && val_eqb (snd p) (snd q)) x y
-  | _, _ => false
-  end.
-Definition ns_eqb (a b : ns) : bool := list_eqb (fun p q => str_eqb (fst p) (fst q) && tv_eqb (snd p) (snd q)) a b.
-
-Definition out_eqb (a b : obs_out) : bool :=
-  match a, b with
-  | OOk x, OOk y => ns_eqb x y
-  | OReject, OReject | OExit, OExit | OOther, OOther => true
-  | _, _ => false
-  end.
-
-Definition model_tables (gk : str) (fs : list field) : four table :=
-  {| q_dotted := as_dotted gk fs;
+(* fixed = false: the unchanged tree; fixed = true: with fixes/C07-inner-hyphen-required.patch applied *)
+Definition model_tables (fixed : bool) (gk : str) (fs : list field) : four table :=
+  {| q_dotted := as_dotted gk (norm fs);
      q_dcls := as_dataclass (dashes ++ gk) fs;
      q_cls := as_class_group gk fs;
-     q_inner := as_inner_parser (dashes ++ gk) fs |}.
+     q_inner := if fixed then as_inner_parser_fixed (dashes ++ gk) (norm fs)
+                else as_inner_parser (dashes ++ gk) (norm fs) |}.
 
 Definition four_all2 {A B} (f : A -> B -> bool) (a : four A) (b : four B) : bool :=
   f (q_dotted a) (q_dotted b) && f (q_dcls a) (q_dcls b) && f (q_cls a) (q_cls b) && f (q_inner a) (q_inner b).
@@ -58,35 +36,24 @@ Definition run_agrees (pv jl : str -> val) (T : table) (inp : input) (o : style_
   | _, _, _ => false
   end.
 
-Definition leaf_rows (T : table) : list row := filter (fun r => negb (is_load r)) (t_rows T).
-Definition same_leaves (a b : table) : bool :=
-  list_eqb row_eqb (leaf_rows a) (leaf_rows b)
-  && incl_str (t_required a) (t_required b) && incl_str (t_required b) (t_required a).
+Definition norm_agrees (fs nfs : list field) : bool := list_eqb field_eqb nfs (norm fs).
 
-Definition dump_text_eqb (a b : option (ns * str)) : bool :=
-  match a, b with
-  | None, None => true
-  | Some x, Some y => ns_eqb (fst x) (fst y) && str_eqb (snd x) (snd y)
-  | _, _ => false
-  end.
-Definition same_answer (a b : style_run) : bool :=
-  out_eqb (sr_out a) (sr_out b) && dump_text_eqb (sr_dump a) (sr_dump b)
-  && match sr_out a with OOther => false | _ => true end.
+Definition no_input : input := {| i_env := []; i_entry := EArgs [] |}.
 
-Definition judge1 (c : case) : verdict :=
+Definition judge1_gen (fixed : bool) (c : case) : verdict :=
   match c with
-  | CTable gk fs obs =>
-      {| v_model := four_all2 table_eqb (model_tables gk fs) obs;
-         v_class := finding_class (fun s => VStr s) gk fs {| i_env := []; i_entry := EArgs [] |};
-         v_spec := same_leaves (q_dotted obs) (q_dcls obs) && table_eqb (q_dcls obs) (q_cls obs)
-                   && table_eqb (q_cls obs) (q_inner obs) |}
-  | CRun gk fs inp pvt jlt obs =>
+  | CTable gk fs nfs obs =>
+      {| v_model := norm_agrees fs nfs && four_all2 table_eqb (model_tables fixed gk fs) obs;
+         v_class := if fixed then finding_class_fixed (fun s => VStr s) gk fs no_input
+                    else finding_class (fun s => VStr s) gk fs no_input;
+         v_spec := tables_agree obs |}
+  | CRun gk fs nfs inp pvt jlt obs =>
       let pv := tab_fun pvt in
       let jl := tab_fun jlt in
-      {| v_model := four_all2 (fun T o => run_agrees pv jl T inp o) (model_tables gk fs) obs;
-         v_class := finding_class pv gk fs inp;
-         v_spec := same_answer (q_dotted obs) (q_dcls obs) && same_answer (q_dcls obs) (q_cls obs)
-                   && same_answer (q_cls obs) (q_inner obs) |}
+      {| v_model := norm_agrees fs nfs
+                    && four_all2 (fun T o => run_agrees pv jl T inp o) (model_tables fixed gk fs) obs;
+         v_class := if fixed then finding_class_fixed pv gk fs inp else finding_class pv gk fs inp;
+         v_spec := answers_agree obs |}
   end.
 
 (* Inside a finding class the implementation must still behave as the faithful model (bug for bug) or as the
@@ -95,4 +62,20 @@ Definition strict (v : verdict) : verdict :=
   if negb (v_model v) && negb (v_spec v) && negb (N.eqb (v_class v) 0)
   then {| v_model := false; v_class := 99; v_spec := false |} else v.
 
-Definition judge (cs : list case) := judge_all (fun c => strict (judge1 c)) cs.
+(* The judge follows the tree: a case is judged against the faithful model of the unchanged tree; when that model
+   does not reproduce the observation but the model of the repaired tree does (fixes/C07-inner-hyphen-required.patch
+   applied), it is judged against that one, whose guard finding_class_fixed has no class 5 (theorem
+   C07_four_styles_agree_fixed).  So after the fix lands nothing has to be switched: class 5 is simply no longer
+   produced (drop its open: line from known_findings/C07.txt — a regression is then an unlisted class, i.e. a
+   violation).  judge_unfixed / judge_fixed pin one of the two models. *)
+Definition judge1_unfixed (c : case) : verdict := strict (judge1_gen false c).
+Definition judge1_fixed (c : case) : verdict := strict (judge1_gen true c).
+Definition judge1 (c : case) : verdict :=
+  let v := judge1_unfixed c in
+  if v_model v then v else
+  let w := judge1_fixed c in
+  if v_model w then w else v.
+
+Definition judge (cs : list case) := judge_all judge1 cs.
+Definition judge_unfixed (cs : list case) := judge_all judge1_unfixed cs.
+Definition judge_fixed (cs : list case) := judge_all judge1_fixed cs.
